@@ -160,10 +160,16 @@ def run(prog):
             r = relation(c, val, cur)
             if r and r[0] in ("Ge", "Gt", "Eq") and r[1] == ("param", 4):
                 done = True
-        out.append(inst("SL", "%s:return-as-is" % fn.npath + ("" if n_asis == 1 else "#%d" % n_asis), OK if done else VIOLATION, fn, None,
+        # only the argument itself (or a child of it) handed back is "returned as is"; a value some helper built
+        # (a cached tail, a folded chain) is not understood here and is left undecided
+        is_arg = t == ("param", 2) or (isinstance(t, tuple) and t and t[0] in ("field", "call") and
+                                       t[0] == "call" and t[1].name in ("low", "high", "low_raw", "high_raw") and t[2] and strip(t[2][0]) == ("param", 2))
+        out.append(inst("SL", "%s:return-as-is" % fn.npath + ("" if n_asis == 1 else "#%d" % n_asis),
+                        OK if done else (VIOLATION if is_arg else UNDECIDED), fn, None,
                         "the diagram is returned unchanged only when current >= total" if done else
-                        "a path returns `%s` although levels current..total are still untested on it: the smoothed "
-                        "diagram would skip those variables (wrong counts through complemented edges)" % show(t)[:60]))
+                        ("a path returns `%s` although levels current..total are still untested on it: the smoothed "
+                         "diagram would skip those variables (wrong counts through complemented edges)" % show(t)[:60]) if is_arg else
+                        "?a path returns `%s`, a value built elsewhere: not read by this rule" % show(t)[:60]))
     if n_asis < 1:
         raise CheckerError("SL3: no base-case return found in smooth_helper")
     # the Compl arm: neg(smooth_helper(Reg(node), current, total))
